@@ -55,7 +55,9 @@ func hostileHost(r *ref.R) string {
 	case 2:
 		return string(r.Bytes(r.Range(1, 20)))
 	case 3:
-		return ref.Pick(r, []string{"[::1]", "[::1]:80", "[", "]", "[]", "[]:", ":", "::", ":80", "a:", "a:8x", "[::1", "::1]", "a.com:99999999999999999999", "example.net", "www.example.net", "EXAMPLE.net:80", "[:80", "[:"})
+		return ref.Pick(r, []string{"[::1]", "[::1]:80", "[", "]", "[]", "[]:", ":", "::", ":80", "a:", "a:8x", "[::1", "::1]", "a.com:99999999999999999999", "example.net", "www.example.net", "EXAMPLE.net:80", "[:80", "[:",
+			// characters whose lower-case form has fewer bytes (Kelvin sign, Angstrom sign), in front of a port: an offset found in one spelling does not fit the other
+			"\u212a\u212a:80", "\u212a\u212a\u212a.example.com:8080", "\u212b.com:1", "[\u212a\u212a]:80", "\u0130.example.com:80", ":", ":80", "[]", "[]:443", ".", ".:80", "a.com.:80"})
 	case 4:
 		h := strings.Repeat("a.", r.Range(1, 3000)) + "com"
 		switch r.Intn(4) { // long names in capitals, partly or wholly; with a port; bracketed
@@ -72,7 +74,7 @@ func hostileHost(r *ref.R) string {
 	}
 }
 
-var patternAtoms = []string{"{", "}", "{}", "{:}", "{-}", "{-:}", "{id}", "{id:}", "{-id}", "{id:\\d+}", "{id:[}", "{id:(}", "{id:digit}", ":", "-", "/", "a", "\\", "{{", "}}", "}{", "{a}{b}", "{a:{b}}", "é", "\xff", "\x00", "*", "{id:a|b}", "{n:^x$}", "{id:a)|(b}", "{x:)(}", "{x:a)(b}", "{x:|}", "{x:()}", "{x:(?i)a}", "{-x:a)|(b}", "{x:.*}", "{x:\\d+}"}
+var patternAtoms = []string{"|", "|raw", "^", "$", "{", "}", "{}", "{:}", "{-}", "{-:}", "{id}", "{id:}", "{-id}", "{id:\\d+}", "{id:[}", "{id:(}", "{id:digit}", ":", "-", "/", "a", "\\", "{{", "}}", "}{", "{a}{b}", "{a:{b}}", "é", "\xff", "\x00", "*", "{id:a|b}", "{n:^x$}", "{id:a)|(b}", "{x:)(}", "{x:a)(b}", "{x:|}", "{x:()}", "{x:(?i)a}", "{-x:a)|(b}", "{x:.*}", "{x:\\d+}"}
 
 func hostilePattern(r *ref.R) string {
 	switch r.Intn(8) {
@@ -256,13 +258,22 @@ func runC05(c *Ctx) {
 	}
 	pv := mux.NewPathVersion("ver", "v1", "/v11/", "v2/x")
 	hv := mux.NewHeaderVersion("ver", "", func(error) {}, "1", "2")
+	// one router serves in two groups (a migration: added to the new group first, removed from the old one later)
+	var shared *mux.Router[*mon.Hnd]
+	grp2 := mon.NewEnv().NewGroup()
 	guard(c, "Group.New/Add", info(nil), func() {
 		grp.New("h", hosts).Get("/x", env.NewHnd(mon.KRoute, "/x"))
-		grp.New("p", pv).Get("/x", env.NewHnd(mon.KRoute, "/x"))
+		shared = grp.New("p", pv)
+		shared.Get("/x", env.NewHnd(mon.KRoute, "/x"))
 		grp.New("v", mux.AndMatcher(hv, mux.OrMatcher(hosts, pv))).Get("/{p}", env.NewHnd(mon.KRoute, "/{p}"))
 		grp.Add(nil, s.R)
+		grp2.Add(pv, shared)
 	})
 	for k := 0; k < 25 && !c.Violated(); k++ {
+		if k == 8 && shared != nil && r.Bool() {
+			guard(c, "Group.Remove", info(nil), func() { grp.Remove("p") })
+			c.Class("router_shared_by_two_groups_removed_from_one")
+		}
 		q := mon.Req{Method: ref.Pick(r, hostileMethods), Path: hostilePath(r, livePats), Host: hostileHost(r)}
 		switch r.Intn(4) {
 		case 0:
@@ -279,6 +290,9 @@ func runC05(c *Ctx) {
 			c.Violate(fmt.Sprintf("Group.ServeHTTP panicked: %v", o.Panic), info(map[string]any{"method": short(q.Method), "path": short(q.Path), "host": short(q.Host), "header": fmt.Sprintf("%q", q.Header)})())
 		} else if o.NilHandler {
 			c.Violate("Group.ServeHTTP handed a nil handler to the CallFunc", info(map[string]any{"method": short(q.Method), "path": short(q.Path), "host": short(q.Host)})())
+		}
+		if o2 := mon.Do(grp2, q); o2.Panicked || o2.NilHandler {
+			c.Violate(fmt.Sprintf("ServeHTTP of a second group that shares a router with the first panicked (%v) or handed out a nil handler", o2.Panic), info(map[string]any{"method": short(q.Method), "path": short(q.Path), "host": short(q.Host)})())
 		}
 		c.Class("group_request")
 		c.Nontrivial("grp|" + q.Method + "|" + q.Path + "|" + q.Host)
